@@ -453,6 +453,7 @@ func SetExtra(key string, v any) {
 func Main(m *testing.M) {
 	code := m.Run()
 	flush()
+	removeBinaries()
 	os.Exit(code)
 }
 
